@@ -158,7 +158,7 @@ PROPS = {
     },
     "C09": {
         "streams": ["reopen", "manifest", "pack", "unpack"],
-        "theorems": "C09_reopen_is_a_function_of_the_manifest, C09_root_independent (accessors of open_dir do not depend on the root; forward lookups are the root followed by the same relative components; reverse lookups of corresponding paths agree), C09_reverse_choice_is_deterministic; the archive leg composes C02 (pack/unpack round trip: PARTIAL there) with these",
+        "theorems": "C09_reopen_is_a_function_of_the_manifest, C09_root_independent (accessors of open_dir do not depend on the root; forward lookups are the root followed by the same relative components; reverse lookups of corresponding paths agree), C09_reverse_choice_is_deterministic, C09_version_visiting_order_irrelevant (the versions object of a registry entry is decoded into a Go map and visited in no fixed order: every permutation of its members gives the same map of source addresses and deprecation notes, or is refused alike); the archive leg composes C02 (pack/unpack round trip: PARTIAL there) with these",
         "assumptions": _ADDR_ASSUME + _PACK_ASSUME + ["modelled, not verified: encoding/json (MarshalIndent / Unmarshal of the manifest), crypto/sha256 (checksum compared on the implementation only), dirhash; partial: 'the same files after WriteArchive + ExtractArchive' rests on C02's round trip, which is proved piecewise and decided per run by packing, extracting and comparing the trees of real bundles; file times are compared to the archive's one-second resolution"],
     },
     "C10": {
